@@ -65,6 +65,7 @@ def interpret(text):
             if isinstance(t, list) and t and t[0] == "!" and ":named" in t:
                 name, body = t[t.index(":named") + 1], t[1]
             frames[-1]["items"].append((body, name, nested_names(t)))
+            frames[-1].setdefault("pos", []).append(len(history))     # position of the assertion in the history
             history.append(body)
         elif k == "push":
             for _ in range(int(c[1]) if len(c) > 1 else 1):
@@ -85,7 +86,7 @@ def interpret(text):
         elif k in QUERY:
             s = State()
             s.kind, s.idx, s.cmd = k, idx, c
-            s.frames = [dict(id=f["id"], items=list(f["items"])) for f in frames]
+            s.frames = [dict(id=f["id"], items=list(f["items"]), pos=list(f.get("pos", []))) for f in frames]
             s.opts = dict(opts)
             s.popped_names = set(popped_names)
             s.popped_terms = list(popped_terms)
@@ -120,6 +121,40 @@ def view(state):
             for n, t in ns:
                 nest[n] = t
     return top, unnamed, nest, allb
+
+
+def reasserted_later(state, logic=None, decls=None, budget=60):
+    """is there a CURRENT assertion whose term was asserted again LATER in the history (in any frame, popped or not)?
+    That is the situation in which FlaPartitionMap overwrites the index the clauses of the earlier assertion carry.
+    Term identity is approximated by the normal form `norm`; with logic/decls given, undecided pairs over the same
+    symbols are referred to z3 (bounded by budget)."""
+    hist = [norm(b) for b in state.history]
+    pairs = []
+    for f in state.frames:
+        for (body, _, _), i in zip(f["items"], f.get("pos", [])):
+            for j in range(i + 1, len(hist)):
+                if hist[j] == hist[i]:
+                    return True
+                pairs.append((body, state.history[j]))
+    if logic is None:
+        return False
+    def syms(t, acc):
+        if isinstance(t, list):
+            for x in t:
+                syms(x, acc)
+        else:
+            acc.add(t)
+        return acc
+    n = 0
+    for a, b in pairs:
+        if syms(sc.strip_named(a), set()) - {"and", "or", "not", "=>", "true", "false"} != syms(sc.strip_named(b), set()) - {"and", "or", "not", "=>", "true", "false"}:
+            continue
+        n += 1
+        if n > budget:
+            break
+        if equivalent(logic, decls, a, b):
+            return True
+    return False
 
 
 def has_nonbool_ite(t, sig):
